@@ -6,7 +6,8 @@ CONSTANT Emit
 I(n) == [neg |-> FALSE, mag |-> NatLimbs(n)]
 F(nm, i, opt, t) == [i |-> i, n |-> nm, gn |-> nm, enc |-> TRUE, opt |-> opt, tag |-> "", t |-> t]
 \* the named type of the catalogue (as the harness's type database describes it)
-MCEnv == [RefNode |-> [k |-> "struct", name |-> "RefNode",
+MCEnv == [NUint |-> [k |-> "uint", w |-> 16], NInt |-> [k |-> "int", w |-> 32],
+          RefNode |-> [k |-> "struct", name |-> "RefNode",
                        f |-> <<F("ID", 1, "", [k |-> "int", w |-> 32]), F("Name", 2, "", [k |-> "string"]),
                                F("Parent", 3, "rf", [k |-> "ptr", e |-> [k |-> "ref", n |-> "RefNode"]])>>]]
 St(fs) == [k |-> "struct", name |-> "", f |-> fs]
@@ -50,7 +51,10 @@ MCCat == <<
   [T |-> St(<<F("L", 1, "", St(<<F("M", 1, "", [k |-> "map", key |-> StrT, val |-> IntT])>>))>>),
    vals |-> << << <<[nil |-> TRUE, m |-> <<>>]>> >>, << <<[nil |-> FALSE, m |-> << <<<<107>>, I(1)>> >>]>> >> >>, cfg |-> "default"],
   [T |-> St(<<F("A", 1, "", St(<<F("B", 1, "", St(<<F("P", 1, "", [k |-> "ptr", e |-> StrT])>>))>>))>>),
-   vals |-> << << << <<NilP>> >> >>, << << <<[nil |-> FALSE, v |-> <<120, 121>>]>> >> >> >>, cfg |-> "default"]
+   vals |-> << << << <<NilP>> >> >>, << << <<[nil |-> FALSE, v |-> <<120, 121>>]>> >> >> >>, cfg |-> "default"],
+  \* named types of narrow kinds next to other data: their codecs are chosen by kind and must touch exactly their own bytes
+  [T |-> St(<<F("P", 1, "", [k |-> "ref", n |-> "NUint"]), F("Q", 2, "", [k |-> "uint", w |-> 16]), F("R", 3, "", [k |-> "ref", n |-> "NInt"]), F("S", 4, "", [k |-> "int", w |-> 8])>>),
+   vals |-> << <<I(0), I(0), I(0), I(0)>>, <<I(5), I(65535), [neg |-> TRUE, mag |-> <<3>>], [neg |-> TRUE, mag |-> <<1>>]>> >>, cfg |-> "default"]
 >>
 \* ---- C19: interned string fields, their plain twins, null.String, two interned fields in one struct ----
 Hat == <<104, 97, 116>>
